@@ -91,7 +91,7 @@ def run(ctx):
     ctx.minimums.clear()
     ctx.minimums.update(mins)
     for o in new:
-        if o['rule'] == 'C10-saturate':
+        if o['rule'] in ('C10-saturate', 'C10-bounds'):       # (the guards compare with bounds that must be the images of the range ends)
             o['rule'] = 'C06-clamp'
             ctx.obligations.append(o)
     ctx.minimum('C06-clamp', 9)
